@@ -525,7 +525,16 @@ func CheckC11(e *Explorer, s *bfs.State) {
 		}
 	}
 	got := make([]int, len(u.Objs))
-	for _, q := range u.Queries {
+	var keptRes, keptCopy []geom.Geom // the result of the widest query, looked at again after all others
+	defer func() {
+		for i := range keptRes {
+			if i >= len(keptCopy) || keptRes[i] != keptCopy[i] {
+				e.Viol("SearchIntersect-result-changed-by-later-queries", s, fmt.Sprintf("element %d", i))
+				return
+			}
+		}
+	}()
+	for qi, q := range u.Queries {
 		for i := range got {
 			got[i] = 0
 		}
@@ -533,6 +542,9 @@ func CheckC11(e *Explorer, s *bfs.State) {
 		if p := try(func() { res = st.T.SearchIntersect(q) }); p != "" {
 			e.Viol("SearchIntersect-panic", s, p)
 			return
+		}
+		if qi == len(u.Queries)-2 {
+			keptRes, keptCopy = res, append([]geom.Geom{}, res...)
 		}
 		bad := ""
 		for _, o := range res {
@@ -616,6 +628,15 @@ func CheckC12(e *Explorer, s *bfs.State) {
 	if m := u.Modified(); m != "" {
 		e.Viol("stored-object-modified", s, m)
 	}
+	var keptRes, keptCopy []geom.Geom // the first full-size answer, looked at again after all other queries
+	defer func() {
+		for i := range keptRes {
+			if keptRes[i] != keptCopy[i] {
+				e.Viol("NearestNeighbors-result-changed-by-later-queries", s, fmt.Sprintf("slot %d", i))
+				return
+			}
+		}
+	}()
 	all := make([]float64, 0, size)
 	for _, p := range u.QPoints {
 		all = all[:0]
@@ -642,6 +663,9 @@ func CheckC12(e *Explorer, s *bfs.State) {
 			if pn := try(func() { res = st.T.NearestNeighbors(k, p) }); pn != "" {
 				e.Viol("NearestNeighbors-panic", s, fmt.Sprintf("k=%d p=%v: %s", k, p, pn))
 				return
+			}
+			if keptRes == nil && k == size {
+				keptRes, keptCopy = res, append([]geom.Geom{}, res...)
 			}
 			e.R.AddEvals(1)
 			if bad := judgeKNN(u, st, res, k, size, p, all); bad != "" {
